@@ -17,3 +17,27 @@ claim("C12",
       "random documents, the Lean predicate C12.holds evaluated on the implementation's own .d text versus its own script, and the files written by "
       "save_other_files (per-segment .d files of partial mode) compared with the model's file system.",
       "Lean 4 proof over the writer model + differential correspondence incl. file exports", "DESIGN.md §8 C12")
+
+claim("C08",
+      "Lean theorems (Props/C08.lean): segment_resolution and settings_resolution prove that each of the twelve overridable options of a parsed "
+      "segment / of the parsed settings is given by one declarative table (own value; null disables the six nullable ones and is rejected for the "
+      "others; absent inherits the level above, the top level being the documented defaults); other_defaults covers every non-overridable "
+      "setting; explicit_shields proves that explicitly restated values resolve to themselves whatever the level above says (restating is the "
+      "identity, global changes never reach an overriding segment). Tie to the code: byte-equal outputs on the full 12 x 4 x 4 lattice and on random "
+      "documents; on the implementation alone every case is re-run with all effective values restated on every segment and all global values "
+      "replaced, and must give identical outputs.",
+      "Lean 4 proof of the resolution table + differential correspondence + restate/shield metamorphic monitor", "DESIGN.md §8 C08")
+claim("C13",
+      "Lean theorems (Props/C13.lean): the header is headerText of the two header settings and the recorded linker symbols (both modes); the "
+      "recorded list is duplicate-free and a name is in it iff the script holds an unconditional plain assignment written as a linker symbol "
+      "(so every declared name is defined); user assignments, ENTRY/EXTERN/ASSERT, _gp and __romPos are never recorded. Tie to the code: byte-equal "
+      "outputs on random documents and the Lean predicate C13.holds on the implementation's own header versus its own script (declared names = "
+      "symbols generated inside SECTIONS, type and [] suffix as configured, include guard intact).",
+      "Lean 4 proof over the writer model + differential correspondence + predicate on implementation outputs", "DESIGN.md §8 C13")
+claim("C14",
+      "Lean theorem C14.passes_refine / parse_eq_specParse (Props/C14.lean, by mutual structural induction on the nested entry type): parsing with the "
+      "three keep_sections push-down passes of the code equals parsing the explicitly written values only and then giving every entry the nearest "
+      "explicit value among itself, its enclosing groups innermost-first, its segment and the segment's class. Tie to the code: byte-equal outputs "
+      "on the {absent,true,false,list}^5 lattice and random nested documents; the KEEP flag of every input statement the implementation emits is "
+      "compared with the one generated from the top-down resolved document (ordinary and per-segment partial scripts).",
+      "Lean 4 proof (mutual induction) of pass-down = nearest ancestor + differential correspondence", "DESIGN.md §8 C14")
